@@ -48,14 +48,42 @@ func main() {
 					Args: []ast.Expr{&ast.BasicLit{Kind: token.INT, Value: strconv.Itoa(site)}},
 				}}
 			}
+			// Comparator closures handed to package sort are not instrumented: how often
+			// they run depends on the initial order of the data, which for map-backed
+			// collections is Go's randomised iteration order - the number of yield points
+			// passed would no longer be a function of the seed.
+			skip := map[*ast.FuncLit]bool{}
+			ast.Inspect(af, func(n ast.Node) bool {
+				if ce, ok := n.(*ast.CallExpr); ok {
+					if se, ok := ce.Fun.(*ast.SelectorExpr); ok {
+						if id, ok := se.X.(*ast.Ident); ok && id.Name == "sort" {
+							for _, a := range ce.Args {
+								if fl, ok := a.(*ast.FuncLit); ok {
+									skip[fl] = true
+								}
+							}
+						}
+					}
+				}
+				return true
+			})
 			ast.Inspect(af, func(n ast.Node) bool {
 				switch x := n.(type) {
 				case *ast.FuncDecl:
+					// one-line accessors (a single return statement) are left alone: they are
+					// what sort comparators call (MapEntryEncoder.KeyBytes), see above
+					if x.Body != nil && len(x.Body.List) == 1 {
+						if _, isRet := x.Body.List[0].(*ast.ReturnStmt); isRet {
+							return true
+						}
+					}
 					if x.Body != nil && x.Name.Name != "init" {
 						x.Body.List = append([]ast.Stmt{call()}, x.Body.List...)
 					}
 				case *ast.FuncLit:
-					x.Body.List = append([]ast.Stmt{call()}, x.Body.List...)
+					if !skip[x] {
+						x.Body.List = append([]ast.Stmt{call()}, x.Body.List...)
+					}
 				case *ast.ForStmt:
 					x.Body.List = append([]ast.Stmt{call()}, x.Body.List...)
 				case *ast.RangeStmt:
